@@ -217,6 +217,37 @@ Theorem C14_stabs_cursor_free : forall c img adv adv' sh,
 Proof. exact stabs_cursor_free. Qed.
 Print Assumptions C14_stabs_cursor_free.
 
+(* ---- several extents of one file.  The usual linker layout is a run of adjacent note sections and
+   one PT_NOTE segment spanning them (same start as the first section, larger size).  A walk is a
+   function of the file image, its offset and its size only (the code keeps nothing on the ELFFile
+   between walks; the one piece of shared state, the stream cursor, is the [adv] of each walk and is
+   arbitrary), so in whatever order the views are walked: a section inside the table yields exactly
+   its own notes at their file offsets ... *)
+Theorem C14_sub_extent_exact : forall c adv ns1 ns2 ns3 (pre tail : list Z),
+  wf_cfg c = true -> wf_notes (scfg_of c) ns2 = true ->
+  iter_notes c (pre ++ encode_notes (scfg_of c) (ns1 ++ ns2 ++ ns3) ++ tail) adv
+    (zlen pre + zlen (encode_notes (scfg_of c) ns1)) (zlen (encode_notes (scfg_of c) ns2))
+  = (expected_notes (scfg_of c) (zlen pre + zlen (encode_notes (scfg_of c) ns1)) ns2, None).
+Proof. exact sub_extent_exact. Qed.
+Print Assumptions C14_sub_extent_exact.
+
+(* ... and the spanning segment yields the concatenation of what the sections yield *)
+Theorem C14_spanning_extent_concat : forall c adv adv1 adv2 adv3 ns1 ns2 ns3 (pre tail : list Z),
+  wf_cfg c = true -> wf_notes (scfg_of c) ns1 = true -> wf_notes (scfg_of c) ns2 = true ->
+  wf_notes (scfg_of c) ns3 = true ->
+  let sc := scfg_of c in
+  let img := pre ++ encode_notes sc (ns1 ++ ns2 ++ ns3) ++ tail in
+  let o1 := zlen pre in
+  let o2 := o1 + zlen (encode_notes sc ns1) in
+  let o3 := o2 + zlen (encode_notes sc ns2) in
+  fst (iter_notes c img adv o1 (zlen (encode_notes sc (ns1 ++ ns2 ++ ns3))))
+  = fst (iter_notes c img adv1 o1 (zlen (encode_notes sc ns1))) ++
+    fst (iter_notes c img adv2 o2 (zlen (encode_notes sc ns2))) ++
+    fst (iter_notes c img adv3 o3 (zlen (encode_notes sc ns3))) /\
+  snd (iter_notes c img adv o1 (zlen (encode_notes sc (ns1 ++ ns2 ++ ns3)))) = None.
+Proof. exact spanning_extent_concat. Qed.
+Print Assumptions C14_spanning_extent_concat.
+
 (* ---- non-vacuity: the hypotheses are met by concrete non-trivial inputs, and the statements
    compute on them *)
 Definition ex_cfg : cfg := {| c_le := true; c_is64 := true; c_etype := "ET_DYN"; c_machine := "EM_X86_64" |}.
@@ -270,4 +301,17 @@ Example C14_ex_stabs_entsize :
   section_stabs_at ex_cfg (img 1) (fun _ => 5) 39 = Ok (expected_stabs true 2 ss, None) /\
   section_stabs_at ex_cfg (img (2 ^ 64 - 1)) (fun i => Z.of_nat i) 39 = Ok (expected_stabs true 2 ss, None) /\
   length (expected_stabs true 2 ss) = 3%nat.
+Proof. vm_compute. repeat split; reflexivity. Qed.
+
+(* one file, the four notes of ex_notes as two sections (2 + 2) under one segment: first section,
+   segment (same start, larger size), second section *)
+Example C14_ex_adjacent :
+  let sc := scfg_of ex_cfg in
+  let a := firstn 2 ex_notes in let b := skipn 2 ex_notes in
+  let img := [1; 2; 3] ++ encode_notes sc (a ++ b) ++ [4; 5] in
+  let la := zlen (encode_notes sc a) in
+  iter_notes ex_cfg img (fun _ => 0) 3 la = (expected_notes sc 3 a, None) /\
+  iter_notes ex_cfg img (fun _ => 0) 3 (zlen (encode_notes sc (a ++ b))) = (expected_notes sc 3 (a ++ b), None) /\
+  iter_notes ex_cfg img (fun _ => 0) (3 + la) (zlen (encode_notes sc b)) = (expected_notes sc (3 + la) b, None) /\
+  length (expected_notes sc 3 a) = 2%nat /\ length (expected_notes sc 3 (a ++ b)) = 4%nat.
 Proof. vm_compute. repeat split; reflexivity. Qed.
